@@ -29,8 +29,19 @@ def gen_fd(rng, fd, files):
     if kind == "file":
         path = pick(rng, ["/tmp/f%d" % fd, "/var/log/x %d.log" % fd,
                           "/data/a:b%d" % fd, "/tmp/report%d (deleted)" % fd])
-        files[path] = {"t": "f", "data": "x"}
-        if path.endswith(" (deleted)") and rng.random() < 0.5:
+        earlier = sorted(p_ for p_, n_ in files.items()
+                         if n_.get("t") == "f" and n_.get("data") == "x" and
+                         not n_.get("stat_err") and p_.startswith(
+                             ("/tmp/f", "/var/log/x ", "/data/a:b")))
+        shared = bool(earlier) and rng.random() < 0.2
+        if shared:
+            # one file open through several descriptors, each with its own
+            # offset and flags
+            path = pick(rng, earlier)
+        else:
+            files[path] = {"t": "f", "data": "x"}
+        if not shared and path.endswith(" (deleted)") and \
+                rng.random() < 0.5:
             # a sibling without the suffix exists too
             files[path[:-10]] = {"t": "f", "data": "sibling"}
         d["target"] = path
